@@ -73,37 +73,56 @@ fn main() {
     };
     let seq: Vec<String> = ivs.iter().map(|iv| answer(&m, iv)).collect();
     println!("seq {}", seq.join(";"));
-    let m = Arc::new(m);
+    drop(m);
     let ivs = Arc::new(ivs);
     let expected = Arc::new(seq);
-    let threads: Vec<_> = (0..8usize)
-        .map(|t| {
-            let m = Arc::clone(&m);
-            let ivs = Arc::clone(&ivs);
-            let expected = Arc::clone(&expected);
-            std::thread::spawn(move || {
-                // every thread walks the list many times from its own offset and stride, issuing each
-                // query several times in a row (repeats are what a cache or memo inside the machine needs)
-                let n = ivs.len();
-                let mut bad: Option<String> = None;
-                if n == 0 {
-                    return "ok".to_string();
-                }
-                for round in 0..300usize {
-                    for k in 0..n {
-                        let idx = (k * (1 + t % 3) + t * 7 + round) % n;
-                        for _ in 0..(1 + (t + k) % 3) {
-                            let a = answer(&m, &ivs[idx]);
-                            if a != expected[idx] && bad.is_none() {
-                                bad = Some(format!("thread {} query {} got [{}] expected [{}]", t, idx, a, expected[idx]));
+    let mut par: Vec<String> = Vec::new();
+    // several FRESH machines: the very first accesses come from all threads at once (barrier), so that
+    // lazily initialised or memoised state inside the machine is exercised concurrently from the start
+    for fresh in 0..12usize {
+        let m = match machine::Builder.try_build_from(chainfile::Reader::new(&data[..])) {
+            Ok(m) => Arc::new(m),
+            Err(e) => {
+                println!("builderr {}", e);
+                return;
+            }
+        };
+        let barrier = Arc::new(std::sync::Barrier::new(8));
+        let rounds = if fresh == 0 { 300 } else { 12 };
+        let threads: Vec<_> = (0..8usize)
+            .map(|t| {
+                let m = Arc::clone(&m);
+                let ivs = Arc::clone(&ivs);
+                let expected = Arc::clone(&expected);
+                let barrier = Arc::clone(&barrier);
+                std::thread::spawn(move || {
+                    let n = ivs.len();
+                    let mut bad: Option<String> = None;
+                    barrier.wait();
+                    if n == 0 {
+                        return "ok".to_string();
+                    }
+                    for round in 0..rounds {
+                        for k in 0..n {
+                            let idx = (k * (1 + t % 3) + t * 7 + round) % n;
+                            for _ in 0..(1 + (t + k) % 3) {
+                                let a = answer(&m, &ivs[idx]);
+                                if a != expected[idx] && bad.is_none() {
+                                    bad = Some(format!(
+                                        "fresh machine {} thread {} query {} got [{}] expected [{}]",
+                                        fresh, t, idx, a, expected[idx]
+                                    ));
+                                }
                             }
                         }
                     }
-                }
-                bad.unwrap_or_else(|| "ok".to_string())
+                    bad.unwrap_or_else(|| "ok".to_string())
+                })
             })
-        })
-        .collect();
-    let par: Vec<String> = threads.into_iter().map(|h| h.join().unwrap_or_else(|_| "panic".into())).collect();
+            .collect();
+        for h in threads {
+            par.push(h.join().unwrap_or_else(|_| "panic".into()));
+        }
+    }
     println!("par {}", par.join("|"));
 }
